@@ -59,6 +59,12 @@ class _Stream(httpx.AsyncByteStream):
                     if cut > 0:
                         yield item[:cut]
                     self.plan.dropped += 1
+                    # the two ways a dropped connection surfaces in httpx: TCP reset -> ReadError; peer closes before the
+                    # final chunk of a chunked body -> RemoteProtocolError
+                    kinds = getattr(self.plan, "kinds", None) or ["reset"]
+                    kind = kinds[(self.plan.dropped - 1) % len(kinds)]
+                    if kind == "fin":
+                        raise httpx.RemoteProtocolError("peer closed connection without sending complete message body (incomplete chunked read)")
                     raise httpx.ReadError("injected drop")
                 self.sent += len(item)
                 yield item
